@@ -29,7 +29,7 @@ def thresholds(tier):
        "stdlib_components_cosimulated": 60, "generated_designs_cosimulated": 150, "param_designs_cosimulated": 60, "svsim_lrm_examples_ok": 24, "struct_constants_evaluated_in_text": 40,
        "struct_leaf_ports_mapped": 300, "array_element_ports_mapped": 300}
   if tier == "thorough":
-    t.update({"programs": 4000, "generated_designs_cosimulated": 3500, "cycles_cosimulated": 80000})
+    t.update({"programs": 3200, "generated_designs_cosimulated": 3000, "cycles_cosimulated": 70000})
   return t
 
 
